@@ -155,6 +155,25 @@ def paths_to(t, root, limit=4):
     return [p for p in out if not any(q != p and q[:len(p)] == p for q in out)][:limit]
 
 
+def event_classes(ctx, body, role):
+    """{id(event): datum class} for the absorptions on the caller's transcript (shared with R-C19-1: which datum goes under which label)"""
+    mine, other, allev = wire.proof_events(ctx, body, 'R-C04-1')
+    st_idx = [i for i in range(1, body.argc + 1) if 'RangeStatement' in body.local_ty(i)]
+    pr_idx = [i for i in range(1, body.argc + 1) if 'RangeProof<' in body.local_ty(i)]
+    fields = {}
+    if role == 'prover':
+        rt = ctx.eng.return_term(body)
+        proofs = [x for x in walk(rt) if x.tag == 'adt' and x[1].endswith('RangeProof::RangeProof')]
+        fields = dict(proofs[0][2]) if proofs else {}
+    out = {}
+    for e in mine:
+        if e.kind == 'challenge':
+            continue
+        c, good, det = classify(ctx, body, role, e, st_idx, pr_idx, fields)
+        out[id(e)] = (c, det)
+    return out
+
+
 def run(ctx):
     rep = ctx.rep
     for role in ('prover', 'verifier'):
